@@ -939,8 +939,13 @@ def _answer_score(shape, decided):
     return sum(1 for d in decided if d)
 
 
-def exec_gen(sc, variant, res, check=True):
-    """One execution of generate_problem under interference `variant`; returns a _Trace."""
+def exec_gen(sc, variant, res, check=True, retain=True):
+    """One execution of generate_problem under interference `variant`; returns a _Trace.
+
+    retain=False: the harness keeps no reference to any problem object it is shown (only value
+    snapshots), so earlier problems are garbage collected as in plain use and their addresses get
+    reused - behaviour that depends on object identity or lifetime differs from the retaining
+    execution."""
     cspuz = core.import_cspuz()
     import cspuz.generator as G
     import cspuz.generator.srandom as srandom
@@ -959,6 +964,8 @@ def exec_gen(sc, variant, res, check=True):
     consume_n = sc["consume_n"][variant]
 
     def note(obj, where):
+        if not retain:
+            return
         for o, snap, _ in seen:
             if o is obj:
                 return
@@ -995,7 +1002,7 @@ def exec_gen(sc, variant, res, check=True):
         tr.seq.append(d)
         res.steps += 1
         res.states.add(d)
-        rec = {"digest": d, "problem": problem, "n": len(tr.seq) - 1}
+        rec = {"digest": d, "problem": problem if retain else copy.deepcopy(problem), "n": len(tr.seq) - 1}
         tr.calls.append(rec)
         if check:
             out = []
@@ -1232,7 +1239,8 @@ def _run_gen(sc, res, variants=None):
     if not det:
         return
     n_events = len(res.events)
-    b = exec_gen(sc, 1, res)
+    b = exec_gen(sc, 1, res, retain=False)
+    res.hit("perturb:second_execution_retains_no_problem_objects")
     del res.events[n_events:]
     res.log("B", b.seq, b.result, b.gen_calls)
     for k, m in b.violations[:3]:
@@ -1271,7 +1279,7 @@ def _leaves(p):
 
 def seq_digest(sc):
     res = RunResult()
-    tr = exec_gen(sc, 0, res, check=False)
+    tr = exec_gen(sc, 0, res, check=False, retain=False)
     return core.digest([tr.seq, tr.result])
 
 
